@@ -114,14 +114,14 @@ def classify (w : List Char) : Option TagName :=
 /-- buildTagOk on the raw word (after splitting on `,`) -/
 def tagLitRaw (c : Ctx) (w : List Char) : R :=
   match w with
-  | [] => .panic                                    -- s[0] on ""
+  | [] => .ok false                                 -- an empty word never matches (fix 2: was s[0] on "")
+  | ['!'] => .ok false                              -- "!" never matches
+  | '!' :: '!' :: _ => .ok false                    -- "!!x" never matches
   | '!' :: rest =>
-    -- `!` alone: s becomes "", none of the cases match, r=false, negated ⇒ true
     (match classify rest with
       | some t => .ok (litOkY c ⟨true, t⟩)
       | none =>
-        if rest.isEmpty then .ok true
-        else -- non-canonical go1.<int>: contains / goos / goarch / Atoi comparison
+          -- non-canonical go1.<int>: contains / goos / goarch / Atoi comparison
           let s := Str.s rest
           let r := c.tags.contains s || s == c.goos || s == c.goarch ||
             (match Str.atoi? (rest.drop 4) with | some n => decide (n ≤ (c.minor : Int)) | none => false)
